@@ -84,6 +84,7 @@ type runner struct {
 	termWaits  int
 	dwarf      bool // binaries carry wasmb.DegenerateDWARF
 	dwarfKind  int
+	walkMax    int // multi: the second factory's listeners look at this many frames only (0: all)
 	// implicit: these instances are created with Runtime.InstantiateWithConfig from the binary (their
 	// compilation is closed with them) while other instances of the same binary stay open
 	implicit map[int]bool
@@ -308,16 +309,20 @@ func (r *runner) factory(idx int) experimental.FunctionListenerFactory {
 		if !r.listensIdx(idx, def.DebugName()) {
 			return nil
 		}
-		return walkLst{}
+		return walkLst{max: r.walkMax}
 	})
 	return experimental.MultiFunctionListenerFactory(second, lfactory{r, idx})
 }
 
-// walkLst walks the stack it is given and does nothing else.
-type walkLst struct{}
+// walkLst walks the stack it is given (all of it, or only the first max frames) and does nothing else.
+type walkLst struct{ max int }
 
-func (walkLst) Before(_ context.Context, _ api.Module, _ api.FunctionDefinition, _ []uint64, si experimental.StackIterator) {
-	for n := 0; si.Next() && n < 600; n++ {
+func (w walkLst) Before(_ context.Context, _ api.Module, _ api.FunctionDefinition, _ []uint64, si experimental.StackIterator) {
+	max := w.max
+	if max <= 0 {
+		max = 600
+	}
+	for n := 0; n < max && si.Next(); n++ {
 		_ = si.Function().Definition()
 	}
 }
